@@ -46,6 +46,76 @@ let tpl (name : n list) : node option =
     let norm = List.map (fun c -> if c >= 65 && c <= 90 then c + 32 else if c = 32 then 95 else c) ints in
     Hashtbl.find_opt universe norm
 
+(* ---- concrete lazy strategies (C03_model.mreq) for the tie: #ifexpr (integer literal conditions), lc (ASCII), padleft
+   (plain decimal widths), #iferror (values without '<').  Names, remainder handling and fetch order follow
+   nodes.pyx Template._flatten :221-262 and magics.py; anything outside these sub-domains raises Unsupported_magic and the
+   case is excluded from the tie (counted). *)
+exception Unsupported_magic of string
+let ints_of s = List.map int_of_n s
+let n_of_ints l = List.map n_of_int l
+let lower_c c = if c >= 65 && c <= 90 then c + 32 else c
+let ascii_string l = String.init (List.length l) (fun i -> Char.chr (List.nth l i))
+let supported = ["#ifexpr"; "lc"; "padleft"; "#iferror"]
+let rec split_colon acc = function
+  | [] -> None
+  | 58 :: r -> Some (List.rev acc, r)
+  | c :: r -> split_colon (c :: acc) r
+(* name after strip -> (function, Some remainder | None) *)
+let magic_name (name : n list) : (string * int list option) option =
+  let ints = ints_of name in
+  if List.exists (fun c -> c >= 128) ints then None else
+  match split_colon [] ints with
+  | Some (f, rem) -> let f = ascii_string (List.map lower_c f) in if List.mem f supported then Some (f, Some rem) else None
+  | None -> let f = ascii_string (List.map lower_c ints) in if List.mem f supported then Some (f, None) else None
+let is_magic name = magic_name name <> None
+(* fetch argument j of the ArgumentList [remainder] + args *)
+let ask rem j (k : int list -> mreq) : mreq =
+  match rem with
+  | Some r when j = 0 -> k (ints_of (strip (n_of_ints r)))
+  | Some _ -> MAsk (nat_of_int (j - 1), fun s -> k (ints_of s))
+  | None -> MAsk (nat_of_int j, fun s -> k (ints_of s))
+let is_digit c = c >= 48 && c <= 57
+let is_alpha c = (c >= 65 && c <= 90) || (c >= 97 && c <= 122)
+let small_int l = (* [-]digits, at most 9 digits *)
+  let neg, d = (match l with 45 :: r -> true, r | _ -> false, l) in
+  if d <> [] && List.length d <= 9 && List.for_all is_digit d
+  then Some ((if neg then -1 else 1) * List.fold_left (fun a c -> a * 10 + (c - 48)) 0 d) else None
+let done_ l = MDone (n_of_ints l)
+let magic_prog (name : n list) (nargs : nat) : mreq =
+  let rec int_of_nat = function O -> 0 | S n -> 1 + int_of_nat n in
+  match magic_name name with
+  | None -> MDone []
+  | Some (f, rem) ->
+    let total = int_of_nat nargs + (match rem with Some _ -> 1 | None -> 0) in
+    (match f with
+     | "#ifexpr" ->
+       ask rem 0 (fun c ->
+         let truth = if c = [] then false else
+           (match small_int c with Some v -> v <> 0 | None -> raise (Unsupported_magic "#ifexpr condition")) in
+         if truth then ask rem 1 done_ else ask rem 2 done_)
+     | "lc" ->
+       if total = 0 then MDone [] else
+       ask rem 0 (fun s -> if List.exists (fun c -> c >= 128) s then raise (Unsupported_magic "lc non-ascii") else done_ (List.map lower_c s))
+     | "padleft" ->
+       ask rem 0 (fun s ->
+         ask rem 1 (fun w ->
+           match small_int w with
+           | Some width ->
+             ask rem 2 (fun fill ->
+               let fill = if fill = [] then [48] else fill in
+               let cnt = max 0 (min width 500 - List.length s) in
+               let fl = List.length fill in
+               done_ (List.init cnt (fun i -> List.nth fill (i mod fl)) @ s))
+           | None ->
+             if w = [] || (List.for_all is_alpha w) then done_ s          (* int() raises ValueError *)
+             else raise (Unsupported_magic "padleft width")))
+     | "#iferror" ->
+       ask rem 0 (fun v ->
+         ask rem 1 (fun _bad ->
+           let fin good = if List.mem 60 v then raise (Unsupported_magic "#iferror value with <") else done_ good in
+           if total > 2 then ask rem 2 fin else fin v))
+     | _ -> MDone [])
+
 let () =
   try while true do
     let line = input_line stdin in
@@ -60,10 +130,11 @@ let () =
       | "X" ->
         let limit = next_int () in
         let nd = read_node () in
-        (match expand tpl (fun _ -> false) (fun _ _ -> []) !defaults (nat_of_int limit) nd with
-         | Ok s -> print_string ("OK " ^ out_str s ^ "\n")
-         | Err XRec -> print_string "ERR XRec\n"
-         | Err XMem -> print_string "ERR XMem\n")
+        (match (try `R (expand tpl is_magic magic_prog !defaults (nat_of_int limit) nd) with Unsupported_magic m -> `U m) with
+         | `R (Ok s) -> print_string ("OK " ^ out_str s ^ "\n")
+         | `R (Err XRec) -> print_string "ERR XRec\n"
+         | `R (Err XMem) -> print_string "ERR XMem\n"
+         | `U m -> print_string ("UNSUP " ^ m ^ "\n"))
       | t -> print_string ("BAD " ^ t ^ "\n")
     with e -> print_string ("EXN " ^ Printexc.to_string e ^ "\n"))
   done with End_of_file -> ()
